@@ -58,6 +58,11 @@ def eval_in(store, x, fn=None, call_eval=None, depth=0):
             return None
         if k == "ref" and x.get("dk") in ("slocal", "global") and "[" in (x.get("t") or ""):
             return symbol_id(x["n"])  # address of a static array: a symbolic non-zero constant
+        if fn is not None and k in ("mem", "idx") and depth < 25:
+            # an access path through a single-definition temporary (`tsk = t->t; tsk->umsk`) names the object the temporary stands for
+            t2 = lv(fn.expand(x))
+            if t2 != t and t2 in store:
+                return store[t2]
         return None
     if k == "call":
         if call_eval:
